@@ -25,9 +25,9 @@ def run(rep, tier, seed, rng):
                 rep.violation("link inputs differ from 'one object per source of every selected module, optional sources by guard' (C03_link_inputs)",
                               gen_common.replay_data(r, outputs=diff, implementation=[li.get(k) for k in diff], specification=[lm.get(k) for k in diff]),
                               found_input=same)
-            elif [(a, b) for a, b, _ in ci] != [(a, b) for a, b, _ in cm]:
+            elif [(a, b) for a, b, _ in ci] != [(a, b) for a, b, _ in cm] or mc.compile_cmd_view(r["impl_parsed"]) != mc.compile_cmd_view(r["model_parsed"]):
                 ndis += 1
-                rep.violation("a source is compiled by a different rule than the nearest matching one (C03_nearest_rule)",
+                rep.violation("a source is compiled by a different rule (name or command) than the nearest matching one (C03_nearest_rule)",
                               gen_common.replay_data(r, implementation=ci[:6], specification=cm[:6]), found_input=same)
             elif sorted({b["out"] for b in r["impl"]["builds"]}) != sorted({b["out"] for b in r["model"]["builds"]}) and same:
                 # (sets: an app name declared for two contexts that both reach a builder gives two builds that the
